@@ -227,6 +227,36 @@ func (e *env) packageClass(v *VPkg) string {
 			}
 		}
 	}
+	// every binding the extractor emits is a literal (untyped integer, float or string constants only):
+	// the package is imported and never named
+	lits, named := 0, 0
+	for i := range v.Objs {
+		o := &v.Objs[i]
+		if !o.Exported {
+			continue
+		}
+		switch o.Kind {
+		case "const":
+			if o.Untyped && (o.CKind == "int" || o.CKind == "float" || o.CKind == "string") {
+				lits++
+			} else {
+				named++
+			}
+		case "var":
+			named++
+		case "func", "type":
+			if !o.Generic {
+				named++
+			}
+		case "iface":
+			if !o.Generic && !(len(o.Methods) == 0 && o.Embeds != 0) {
+				named++
+			}
+		}
+	}
+	if lits > 0 && named == 0 {
+		return "only-literal-bindings"
+	}
 	return ""
 }
 
